@@ -1039,7 +1039,7 @@ package ggql
 //@   props C01
 //@   check panic {C03}
 //@   check frame {C11}
-//@   assigns fresh, root.subscriptions, H_Field.ConType, H_Object.meta, H_FieldDef.goField, H_FieldDef.method, H_FieldDef.args, held, #res
+//@   assigns fresh, root.subscriptions, H_Field.ConType, H_Object.meta, H_FieldDef.goField, H_FieldDef.method, H_FieldDef.args, held, #res, #registered
 //@   ensures[locks-balanced]{C12,C20} held == old(held)
 //@   requires root != nil && exe != nil
 //@   requires root.schema != nil
@@ -1054,6 +1054,11 @@ package ggql
 //@           invariant[no-res] #res == old(#res)
 //@           invariant[no-err] err == nil
 //@           decreases len(op.Variables) - rangeindex
+//@   -- a subscription request: every subscription the resolvers produced is handed to the registry, on every way out of the loop
+//@   loop 1: invariant[registered-so-far]{C19} forall k string {seen(1, k)} :: seen(1, k) && is(subMap[k], *Subscription) && as(subMap[k], *Subscription) != nil ==> #registered[as(subMap[k], *Subscription)] > old(#registered)[as(subMap[k], *Subscription)]
+//@           invariant[monotone]{C19} forall s *Subscription {#registered[s]} :: #registered[s] >= old(#registered)[s]
+//@           invariant[domain]{C19} forall k string {indomain(1, k)} :: indomain(1, k) <==> has(subMap, k)
+//@           exit[all-registered]{C19} forall k string {subMap[k]} :: has(subMap, k) && is(subMap[k], *Subscription) && as(subMap[k], *Subscription) != nil ==> #registered[as(subMap[k], *Subscription)] > old(#registered)[as(subMap[k], *Subscription)]
 
 
 //@ -- ------------------------------------------------------------------ C04/C05 wrappers and enums
